@@ -1,6 +1,6 @@
 """G-asm: seeded generator of valid input assemblies (plain data)."""
 
-GAP_TYPES = ["scaffold", "scaffold", "scaffold", "contig", "centromere", "short_arm", "heterochromatin", "telomere", "repeat", "contamination"]
+GAP_TYPES = ["scaffold", "scaffold", "scaffold", "contig", "centromere", "short_arm", "heterochromatin", "telomere", "repeat", "contamination", "contamination"]
 TEXELS = [1.0, 1.5, 2.0, 3.7, 10.0, 33.333333, 100.0, 1000.25, 2326.116333]
 
 
